@@ -171,7 +171,7 @@
         assert!(inv_pub(&p), "C35: the handle invariant (keys below the counter, pairwise distinct) is re-established");
         kani::cover!(r.is_ok());
         kani::cover!(counter_before == 255);
-        kani::cover!(counter_before == 1);
+        kani::cover!(counter_before as usize == existing);
         core::mem::forget(p);
     }
 
@@ -194,6 +194,7 @@
     /// @props C35
     /// @kind bounded
     /// @tier thorough
+    /// @cbmc --unwind 5 --unwindset memcmp.0:18
     /// @bounds 2 publishers already in the list
     /// @fn DcpsDomainParticipant::create_user_defined_publisher
     #[cfg_attr(kani, kani::proof)]
